@@ -279,7 +279,8 @@ CONTRACTS[F + 'SupDSG.add_mapping'] = dict(
     calls={
         # mapping-specific checks (may reject with any error); it does not touch the list of registered mappings
         'choice_mapping.initialize': dict(params=['sup_dsg', 'node', 'src'], returns=None, modifies=[], assumed=True,
-                                          receiver='choice_mapping', may_raise=['RuntimeError', 'ValueError']),
+                                          receiver='choice_mapping',
+                                          raises={'mapping-specific-check-fails': ('RuntimeError', 'nondet()')}),
     },
     may_raise=['RuntimeError', 'ValueError'],
     must_raise={'choice-not-in-this-graph-rejected': ('RuntimeError', 'not (sup_choice_node in self.graph.nodes)')},
